@@ -3,7 +3,7 @@ import sys, time, signal, os
 sys.path.insert(0, os.path.dirname(os.path.dirname(os.path.abspath(__file__))))
 import warnings; warnings.filterwarnings("ignore")
 import z3
-from pyvc import execu as X, models, omap, stdmodels, simobj, msd, fsys
+from pyvc import execu as X, models, omap, stdmodels, simobj, msd, fsys, heaps
 msd.install(); fsys.install()
 import importlib
 P = importlib.import_module("props." + sys.argv[1])
